@@ -34,6 +34,13 @@ func c01Stamps(b []byte) []int64 {
 	return out
 }
 
+func c01Tail(b []byte) string {
+	if len(b) > 24 {
+		b = b[len(b)-24:]
+	}
+	return string(b)
+}
+
 type c01Cfg struct {
 	root, asset, rep string
 	mode             string // number | tltime | tlnr
@@ -119,6 +126,9 @@ func TestVerifC01(t *testing.T) {
 	var cfgs []c01Cfg
 	for _, root := range roots {
 		for _, ap := range vAssetPaths(root) {
+			if !vExtraWanted(root, ap, "x_video_trex_vs_tfhd", "x_two_video_grids", "x_thumbs_1s_before_text", "x_text_short_last", "x_text_both_sizes") {
+				continue
+			}
 			if vTimeOffsetAsset(ap) {
 				continue // see DESIGN: assets whose first segment does not start at media time 0 are probed by C02 only
 			}
@@ -137,6 +147,9 @@ func TestVerifC01(t *testing.T) {
 			sort.Strings(ids)
 			for _, id := range ids {
 				r := a.Reps[id]
+				if r.LoopMismatch {
+					continue // a track shorter or longer than the loop cannot give a gap-free timeline; not in the statement
+				}
 				if r.Kind == "audio" {
 					continue
 				}
@@ -291,6 +304,10 @@ func c01RunCfg(rep *vh.Report, c c01Cfg, quick bool) {
 					gd = gd[:ss[0]]
 				}
 				vs, gs := c01Stamps(vd), c01Stamps(gd)
+				// the document is the VoD document: nothing but the timestamps differs, nothing is cut off or appended
+				if vt, gt := c01TimeRe.ReplaceAll(vd, []byte("T")), c01TimeRe.ReplaceAll(gd, []byte("T")); len(vs) == len(gs) && !bytes.Equal(vt, gt) {
+					viol("C01.f", "ttml-document", fmt.Sprintf("n=%d: with the timestamps masked, the TTML document (%d bytes) differs from that of VoD segment %s (%d bytes); it ends with %q", n, len(gt), vod.File, len(vt), c01Tail(gt)), url)
+				}
 				if len(vs) != len(gs) {
 					viol("C01.f", "stamp-count", fmt.Sprintf("n=%d: %d timestamps, VoD has %d", n, len(gs), len(vs)), url)
 				} else {
